@@ -33,6 +33,27 @@ def gen_cases(rnd, tier):
                             steps.append(base[i - 1])
                         steps += [r for r, p in zip(replies, pos) if p == i]
                     cases.append({'registry': {B.PKGS[k]: outcome for k in range(4)}, 'cached': [], 'steps': steps, 'shared': False})
+    # exhaustive: one document opened, (edited,) closed and opened again, each reply at every position after the event that
+    # first needs it - before the close, between close and re-open, after the re-open
+    for with_change in (False, True):
+        for a, b, c in itertools.product([0, 1], repeat=3):
+            if not with_change and b != a:
+                continue
+            for outcome in OUTCOMES[:2]:
+                evs = [{'op': 'open', 'u': 0, 'rev': (0, a)}] + ([{'op': 'change', 'u': 0, 'rev': (1, b)}] if with_change else []) + [{'op': 'close', 'u': 0}, {'op': 'open', 'u': 0, 'rev': (2, c)}]
+                mention = {}
+                for i, e in enumerate(evs):
+                    if e['op'] != 'close' and e['rev'][1] not in mention:
+                        mention[e['rev'][1]] = i
+                replies = [{'op': 'reply', 'p': p_} for p_ in sorted(mention)]
+                slots = [range(mention[r['p']] + 1, len(evs) + 1) for r in replies]
+                for pos in itertools.product(*slots):
+                    steps = []
+                    for i in range(len(evs) + 1):
+                        if i > 0:
+                            steps.append(evs[i - 1])
+                        steps += [r for r, p_ in zip(replies, pos) if p_ == i]
+                    cases.append({'registry': {B.PKGS[k]: outcome for k in range(4)}, 'cached': [], 'steps': steps, 'shared': False})
     n = 120 if tier == 'quick' else 3000
     for _ in range(n):
         shared = rnd.random() < 0.15
